@@ -12,6 +12,7 @@ package main
 import (
 	"fmt"
 	"os"
+	"strings"
 	"sync"
 	"time"
 
@@ -23,6 +24,10 @@ func main() {
 	r := common.Start("C15", "exploration")
 	if common.ChildRole() == "tcp" {
 		tcpChild()
+		return
+	}
+	if r.Replay != "" {
+		replay(r)
 		return
 	}
 	scratch := common.Scratch("c15")
@@ -143,4 +148,41 @@ func tailStr(s string, n int) string {
 		return s[len(s)-n:]
 	}
 	return s
+}
+
+// replay re-executes a stored simulated case (deterministic from its seed) or re-judges a stored TCP log.
+func replay(r *common.Run) {
+	key, _, wit, err := r.LoadReplay()
+	if err != nil {
+		fmt.Println("cannot read replay file:", err)
+		os.Exit(3)
+	}
+	if wit["setting"] == "tcp" {
+		var recs []map[string]any
+		_ = common.Remarshal(wit["log"], &recs)
+		nc, _ := wit["num_clients"].(float64)
+		vs, _, _ := checkTCPLog(recs, int(nc))
+		for _, v := range vs {
+			r.Report(v.Key, v.Desc, wit)
+		}
+		r.FinishReplay(key)
+	}
+	nc, _ := wit["num_clients"].(float64)
+	seed, _ := wit["seed"].(float64)
+	sim := adapters.Locksvc(int64(seed), int(nc))
+	out := sim.Run(2000, true)
+	if out.Result.Err != nil && !out.Result.MonitorErr {
+		r.Report("C15:sim:archetype-error", out.Result.Err.Error(), wit)
+	}
+	for _, v := range out.Violations {
+		r.Report(v.Key, v.Desc, map[string]any{"setting": "sim", "num_clients": nc, "seed": seed, "steps": out.StepLog})
+	}
+	if strings.HasPrefix(key, "C15:tlc:") && len(out.States) > 1 {
+		scratch := common.Scratch("c15r")
+		defer os.RemoveAll(scratch)
+		if v := sim.Validate(scratch, out.States, 5*time.Minute); v.Kind == "step" || v.Kind == "invariant" {
+			r.Report(key, fmt.Sprintf("TLC again: %s at %d %s", v.Kind, v.RejectedAt, v.Invariant), wit)
+		}
+	}
+	r.FinishReplay(key)
 }
